@@ -44,7 +44,10 @@ def stages(tier, seed, bins):
             c["q"] = max(1, min(td, c["D"], rnd.choice([td, td, max(1, td - 1)])))
         c["em"] = em
         if m == "mds":
-            c["dist"] = rnd.choice(["l2", "l2", "l2", "l1", "linf"])
+            c["dist"] = rnd.choice(["l2", "l2", "l2", "l1", "linf", "discrete"])
+            if c["dist"] != "l2" and em == "dense" and rnd.random() < 0.5:
+                # non-Euclidean dissimilarities have negative eigenvalues: retain some of them
+                c["td"] = max(1, min(N - 1, rnd.choice([N - 1, N - 2, (2 * N) // 3])))
             if em == "randomized":
                 c["dist"] = "l2"
             if rnd.random() < 0.3 and em == "dense":
